@@ -62,4 +62,17 @@ PROPS = {
         'trusted_base': ['theorems in coq/props/C20.v about coq/theories/Wire.v and WireLH.v (proofs in WireFacts.v, WireLHFacts.v)'],
         'assumptions': COMMON_ASSUME + ['every encoded part is below 2^32 bytes (membuffers Offset is uint32)', 'parsing is a pure function of the bytes (the readers keep no state besides a lazily computed offset table)'],
     },
+    'C02': {
+        'engines': [{'name': 'vbc', 'quick_args': ['-n', '1500'], 'thorough_args': ['-n', '20000']}],
+        'corr_modules': ['VBC'],
+        'trusted_base': ['theorems in coq/props/C02.v about coq/theories/VBC.v'],
+        'assumptions': COMMON_ASSUME + ['signature flags of the proof nodes = KeyManager.VerifyConsensusMessage over the proof\'s block reference bytes; seed flag = KeyManager.VerifyRandomSeed against the seed derived from the previous proof', 'committee ids pairwise distinct, total weight < 2^64', 'ValidateBlockCommitment is a function of (height, block, hash)'],
+    },
+    'C12': {
+        'engines': [{'name': 'world', 'quick_args': ['-n', '60'], 'thorough_args': ['-n', '1200']}, {'name': 'vbc', 'quick_args': ['-n', '1500'], 'thorough_args': ['-n', '20000']}, {'name': 'wire', 'quick_args': ['-n', '120'], 'thorough_args': ['-n', '2500']}],
+        'corr_modules': ['Term', 'VBC', 'Wire', 'WireLH'],
+        'trusted_base': ['theorems in coq/props/C12.v about coq/theories/Term.v, VBC.v, Leader.v (proofs in TermFacts.v)'],
+        'assumptions': COMMON_ASSUME + ['Go recover() catches the run-time panics of slicing / nil dereference inside the guarded sections', 'membuffers unsafe reads stay inside the backing array for the byte strings tried (memory unsafety is not expressible in the model)'],
+        'notes': ['runtime fatal errors (stack overflow, OOM on hostile sizes) are outside the model'],
+    },
 }
